@@ -15,6 +15,7 @@ import (
 	"pgregory.net/rapid"
 
 	"verif/harness/ev"
+	"verif/harness/gen"
 	"verif/harness/rp"
 )
 
@@ -455,6 +456,10 @@ func genCase(t *rapid.T) aCase {
 			b := []byte(s)
 			pos := rapid.IntRange(0, len(b)).Draw(t, "pos")
 			ch := rapid.SampledFrom([]byte("0123456789.: -+x/[]%\t\x00")).Draw(t, "ch")
+			if rapid.IntRange(0, 11).Draw(t, "dict") == 0 {
+				s = string(b[:pos]) + gen.DictString(t, "dict.ins") + string(b[pos:]) // a string literal from the library's own source
+				continue
+			}
 			if rapid.IntRange(0, 5).Draw(t, "invisible") == 0 {
 				// characters that a 'cleaning' or normalising step may drop or fold: zero-width and format characters, no-break
 				// and ideographic spaces, the full stops that IDNA maps to '.', fullwidth digits
